@@ -550,6 +550,10 @@ class FileScan:
         if not idxs:
             return
         T = self.toks
+        # `use a::*;` and `const X: T = …;` inside a function body: no run-time arithmetic
+        first = T[idxs[0]]
+        if first[0] == "id" and first[1] in ("use", "const", "static"):
+            return
         text = None
         found = []
         shifts = set()
